@@ -917,7 +917,7 @@ class LogicalExpr(CalculusFunction):
         """."""
 
         from sympde.expr.evaluation import TerminalExpr, DomainExpression
-        from sympde.expr.expr import BilinearForm, LinearForm, BasicForm, Norm
+        from sympde.expr.expr import BilinearForm, LinearForm, BasicForm, Norm, SemiNorm
         from sympde.expr.expr import Integral
 
         types = (ScalarFunction, VectorFunction, DifferentialOperator, Trace, Integral)
@@ -1251,12 +1251,12 @@ class LogicalExpr(CalculusFunction):
             body    = cls.eval(expr.expr, domain)
             return LinearForm(tests, body)
 
-        elif isinstance(expr, Norm):
+        elif isinstance(expr, (Norm, SemiNorm)):
             kind           = expr.kind
             exponent       = expr.exponent
             e              = cls.eval(expr.expr, domain)
             domain         = domain.logical_domain
-            norm           = Norm(e, domain, kind, evaluate=False)
+            norm           = type(expr)(e, domain, kind, evaluate=False)
             norm._exponent = exponent
             return norm
 
